@@ -201,6 +201,8 @@ def _getitem(models, it, base, idx, node):
     models.note(it, "exact:2-D numpy indexing as lambda arrays over cells")
     if isinstance(idx, tuple) and not isinstance(idx, T) and len(idx) == 2:
         r, c = idx
+        if isinstance(c, SOpt):
+            c = it.run.unopt(c, "column index")
         if tag(r) == "slice":
             s, e, ln = _rows_slice(o, r)
             cl = _int_list(it, c)
@@ -314,6 +316,10 @@ def _nd_seq(run, v):
 
 def _elementwise(run, sop, a, b):
     """comparison of a 1-D numpy vector / an index array with a scalar"""
+    if isinstance(a, SOpt) and (_nd_seq(run, b) is not None or isinstance(b, SIdx)):
+        a = run.unopt(a, "comparand")
+    if isinstance(b, SOpt) and (_nd_seq(run, a) is not None or isinstance(a, SIdx)):
+        b = run.unopt(b, "comparand")
     oa, ob = _nd_seq(run, a), _nd_seq(run, b)
     if (oa is None) == (ob is None) and not isinstance(a, SIdx) and not isinstance(b, SIdx):
         return NotImplemented
@@ -610,3 +616,166 @@ def _cols2_json(run, m, v, ev):
 
 from . import vcgen as _vcgen  # noqa: E402
 _vcgen.OPAQUE_JSON["Cols2"] = _cols2_json
+
+
+# ------------------------------------------------------------------------------------------------- shapes, mask selection
+from .models import GLOBAL_REC  # noqa: E402
+
+
+def mcount_fn(ctx):
+    """number of True entries among mask[0..n): recursive function (lemmas mcount_range / _complement / _pos are proved
+    in contracts/partitioners.py and instantiated automatically where a mask selects rows)"""
+    key = "rec!mcount"
+    if key in GLOBAL_REC:
+        ctx.ufs[key] = GLOBAL_REC[key]
+    if key not in ctx.ufs:
+        f = z3.RecFunction("mcount", PRED, INT, INT)
+        p = z3.Const("mcount!p", PRED)
+        n = z3.Int("mcount!n")
+        z3.RecAddDefinition(f, [p, n], z3.If(n <= 0, z3.IntVal(0), f(p, n - 1) + z3.If(p[n - 1], z3.IntVal(1), z3.IntVal(0))))
+        GLOBAL_REC[key] = f
+        ctx.ufs[key] = f
+    return ctx.ufs[key]
+
+
+def _select_rows(models, it, base_ref, o, mask, node):
+    run = it.run
+    run.oblige("mask-length@%s" % getattr(node, "lineno", "?"), mask.n == o.n, kind="safety")
+    f = mcount_fn(it.ctx)
+    c = f(mask.pred, o.n)
+    k = z3.Int("k!mc")
+    it.ctx.fact(z3.And(c >= 0, c <= o.n), key=("mcount-range", c.sexpr()))
+    it.ctx.fact(z3.ForAll([k], z3.Implies(z3.And(k >= 0, k < o.n, mask.pred[k]), c >= 1)), key=("mcount-pos", c.sexpr()))
+    run.assumed.extend(["lemma:mcount_range", "lemma:mcount_pos"])
+    sels = run.__dict__.setdefault("mask_selections", [])
+    for (oid, n_, pred_, c_) in sels:
+        if oid == base_ref.oid and z3.eq(n_, o.n):
+            it.ctx.fact(z3.Implies(z3.ForAll([k], z3.Implies(z3.And(k >= 0, k < o.n), pred_[k] != mask.pred[k])), c_ + c == o.n),
+                        key=("mcount-compl", c_.sexpr(), c.sexpr()))
+            run.assumed.append("lemma:mcount_complement")
+    sels.append((base_ref.oid, o.n, mask.pred, c))
+    models.note(it, "model:boolean-mask row selection (row count = mcount(mask); the selected rows' cells are not tracked)")
+    arr = run.fresh(MAT, "selected")
+    return run.alloc(HMat(arr, c, o.d))
+
+
+def _getitem_mask(models, it, base, idx, node):
+    if isinstance(idx, SBoolVec) and isinstance(base, Ref):
+        o = _mat_of(it, base)
+        if o is not None and _frame_of(it, base) is None:
+            return _select_rows(models, it, base, o, idx, node)
+    return NotImplemented
+
+
+HOOKS["getitem"].insert(0, _getitem_mask)
+
+
+def _attr_shape(models, it, base, obj, attr, node):
+    if isinstance(obj, HMat) and attr == "shape":
+        return (obj.n, obj.d)
+    return NotImplemented
+
+
+HOOKS["attr"].insert(0, _attr_shape)
+
+
+def _spec_mcount(self, e, fr):
+    from .seqs import _hseq
+    o = _hseq(self, self.ev(e.args[0], fr))
+    n = b2i(z(self.ev(e.args[1], fr)))
+    k = z3.Int("i!mcs")
+    pred = o.arr if (o.lo is not None and z3.is_int_value(z3.simplify(o.lo)) and z3.simplify(o.lo).as_long() == 0) else \
+        z3.Lambda([k], o.arr[o.lo + k])
+    return mcount_fn(self.ctx)(pred, n)
+
+
+X.Interp.spec_mcount = _spec_mcount
+
+
+# ------------------------------------------------------------------------------------------------- min / max / ptp / unique
+def _extreme(it, name, seq):
+    """np.min / np.max of a 1-D vector: a value bounding every element and attained at some index (n >= 1)"""
+    ctx = it.ctx
+    i = z3.Int("i!ext")
+    arr = seq.arr if z3.is_int_value(z3.simplify(seq.lo)) and z3.simplify(seq.lo).as_long() == 0 else \
+        z3.Lambda([i], seq.arr[seq.lo + i])
+    if arr.sort().range() == INT:
+        arr = z3.Lambda([i], z3.ToReal(arr[i]))
+    n = z3.simplify(seq.hi - seq.lo)
+    f = ctx.uf("vec_" + name, ROW, INT, REAL)
+    at = ctx.uf("vec_" + name + "_at", ROW, INT, INT)
+    v, w = f(arr, n), at(arr, n)
+    k = z3.Int("k!ext")
+    bound = (v <= arr[k]) if name == "min" else (v >= arr[k])
+    ctx.fact(z3.ForAll([k], z3.Implies(z3.And(k >= 0, k < n), bound)), key=("vec-" + name, v.sexpr()))
+    ctx.fact(z3.Implies(n >= 1, z3.And(w >= 0, w < n, arr[w] == v)), key=("vec-" + name + "-at", v.sexpr()))
+    it.ctx.models.note(it, "axiom:np.min / np.max / np.ptp of a vector (bounds every element, attained at some index)")
+    return v
+
+
+def _np_min(models, it, args, kw, fr, node):
+    o = _nd_seq(it.run, args[0]) if args else None
+    if o is None or kw:
+        raise Unsupported("np.min(%r)" % (args,), node)
+    it.run.oblige("min-of-nonempty@%s" % getattr(node, "lineno", "?"), o.hi - o.lo >= 1, kind="safety")
+    return _extreme(it, "min", o)
+
+
+def _np_max(models, it, args, kw, fr, node):
+    o = _nd_seq(it.run, args[0]) if args else None
+    if o is None or kw:
+        raise Unsupported("np.max(%r)" % (args,), node)
+    it.run.oblige("max-of-nonempty@%s" % getattr(node, "lineno", "?"), o.hi - o.lo >= 1, kind="safety")
+    return _extreme(it, "max", o)
+
+
+def _np_ptp(models, it, args, kw, fr, node):
+    o = _nd_seq(it.run, args[0]) if args else None
+    if o is None or kw:
+        raise Unsupported("np.ptp(%r)" % (args,), node)
+    it.run.oblige("ptp-of-nonempty@%s" % getattr(node, "lineno", "?"), o.hi - o.lo >= 1, kind="safety")
+    return _extreme(it, "max", o) - _extreme(it, "min", o)
+
+
+def _np_unique(models, it, args, kw, fr, node):
+    o = _mat_of(it, args[0]) if args else None
+    if o is None or kw:
+        raise Unsupported("np.unique(%r)" % (args,), node)
+    u = it.run.fresh("Int", "n_unique")
+    it.run.assume(z3.And(u >= 0, z3.Implies(z3.And(o.n >= 1, o.d >= 1), u >= 1)))
+    models.note(it, "opaque:np.unique(data).size (some count, >= 1 for non-empty data)")
+    return SOpaque("Uniq", None, {"size": u})
+
+
+from .models import OPAQUE_ATTRS  # noqa: E402
+OPAQUE_ATTRS[("Uniq", "size")] = lambda models, it, base, node: base.meta["size"]
+_arrays.EXTRA_EXT["numpy.min"] = _np_min
+_arrays.EXTRA_EXT["numpy.max"] = _np_max
+_arrays.EXTRA_EXT["numpy.ptp"] = _np_ptp
+_arrays.EXTRA_EXT["numpy.unique"] = _np_unique
+
+
+def _spec_colmin(self, e, fr):
+    o = _mat_of(self, self.ev(e.args[0], fr))
+    c = b2i(z(self.ev(e.args[1], fr)))
+    return _extreme(self, "min", self.run.obj(col_vector(self, o, z3.IntVal(0), o.n, c)))
+
+
+def _spec_colmax(self, e, fr):
+    o = _mat_of(self, self.ev(e.args[0], fr))
+    c = b2i(z(self.ev(e.args[1], fr)))
+    return _extreme(self, "max", self.run.obj(col_vector(self, o, z3.IntVal(0), o.n, c)))
+
+
+X.Interp.spec_colmin = _spec_colmin
+X.Interp.spec_colmax = _spec_colmax
+
+
+def _anylist_method(models, it, target, obj, name, args, kwargs, fr, node):
+    if isinstance(target, SOpaque) and target.sort == "AnyList" and name == "append":
+        models.note(it, "opaque:append to a caller-owned list whose content is not tracked")
+        return None
+    return NotImplemented
+
+
+HOOKS["method"].insert(0, _anylist_method)
